@@ -269,6 +269,22 @@ def synth_case(rng):
 
 # ----------------------------------------------------------------------------- kernels and capture
 
+class KernelOutputOutOfRange(Exception):
+    """Raised by the harness between the two numba kernels (which do no bounds checking) when the first one returned
+    node ids outside the new node table: going on would read/write out of bounds and can crash the interpreter."""
+
+
+def check_split_output(n_in, nep, nec, order, split):
+    order = np.asarray(order)
+    n_out = order.size
+    for name, a in (("edges_parent", nep), ("edges_child", nec)):
+        a = np.asarray(a)
+        if a.size and (a.min() < 0 or a.max() >= n_out):
+            raise KernelOutputOutOfRange(f"_split_disjoint_nodes returned {name} with id {int(a.max())} for a node table of {n_out} rows")
+    if order.size and (order.min() < 0 or order.max() >= n_in):
+        raise KernelOutputOutOfRange(f"_split_disjoint_nodes returned nodes_order entry {int(order.max())} for {n_in} input nodes")
+
+
 @contextlib.contextmanager
 def capture_kernels():
     """Record arguments and results of the two numba kernels while `split_disjoint_nodes` runs."""
@@ -280,6 +296,7 @@ def capture_kernels():
         out = o1(ep, ec, el, er, excl)
         calls["split"].append((tuple(np.array(a, copy=True) for a in (ep, ec, el, er, excl)),
                                tuple(np.array(a, copy=True) for a in out)))
+        check_split_output(len(excl), *out)
         return out
 
     def w2(*args):
@@ -310,6 +327,7 @@ def run_kernels(c):
     f64 = lambda a: np.ascontiguousarray(a, dtype=np.float64)  # noqa: E731
     nep, nec, order, split = _split_disjoint_nodes(i32(c["ep"]), i32(c["ec"]), f64(c["el"]), f64(c["er"]),
                                                    np.ascontiguousarray(c["excl"], dtype=bool))
+    check_split_output(len(c["excl"]), nep, nec, order, split)
     mout = _relabel_mutations_node(i32(c["mnode"]), f64(c["mpos"]), i32(order), i32(nep), i32(nec),
                                    f64(c["el"]), f64(c["er"]), i32(c["ins"]), i32(c["rem"]))
     return dict(parent=np.array(nep), child=np.array(nec), order=np.array(order), split=np.array(split), mnode=np.array(mout))
